@@ -195,8 +195,10 @@ Print Assumptions C15_file_text_loads.
    lines A, B of other variables which the scan of d ignores (foreign) and lookups by name are
    unambiguous.  Then registering d re-creates exactly those settings, and saving writes exactly those
    lines.  items_ok: valid names, channels that are channels, every value survives str()/set() (rt),
-   different nodes have different paths, and EVERY NETWORK NODE HAS AT LEAST ONE CHANNEL VALUE -- the
-   domain: a network-level value alone is dropped (C15_network_only_refuted, finding C15.F27). *)
+   different nodes have different paths, a network item has its own value or a channel value (else it
+   is not a setting), and the flavour rule (global: nothing below; network variables: channel nodes and
+   network nodes; channel variables: everything).  Since the repair of C15.F27 a network-level value
+   needs no channel value below it (C15_network_only_kept). *)
 Theorem C15_load_save_var :
   forall d b items A B,
   items_ok d b items -> foreign d A -> foreign d B ->
@@ -242,13 +244,10 @@ Theorem C15_restart_example :
 Proof. exact ex_session. Qed.
 Print Assumptions C15_restart_example.
 
-(* outside the domain (finding C15.F27): a network-level value without channel values below it is not
-   re-created by the scan; the next untouched save writes only the base line *)
-Theorem C15_network_only_refuted :
-  match load_var ex_d (var_lines ex_d (PS [122]) ex_netonly) with
-  | Ok st => save_var ex_d st <> var_lines ex_d (PS [122]) ex_netonly /\
-             save_var ex_d st = [(gname_of ex_d, str_of KString (PS [122]))]
-  | Raise _ => False
-  end.
-Proof. exact ex_netonly_dropped. Qed.
-Print Assumptions C15_network_only_refuted.
+(* the old witness of the repaired defect C15.F27: a network-level value without channel values
+   below it is re-created by the scan and written again *)
+Theorem C15_network_only_kept :
+  load_var ex_d (var_lines ex_d (PS [122]) ex_netonly) = Ok (var_state (PS [122]) ex_netonly) /\
+  save_var ex_d (var_state (PS [122]) ex_netonly) = var_lines ex_d (PS [122]) ex_netonly.
+Proof. exact ex_netonly_kept. Qed.
+Print Assumptions C15_network_only_kept.
